@@ -9,12 +9,21 @@ R-AXISFAMILY  the index terms of the radial and of the azimuthal slice are the s
               renaming radial<->azimuthal (sibling alpha-equivalence);
 R-AXISMETA    each index term equals (limit[k] - offset_j)/sampling_j built from the offset/sampling
               expressions that base_axes_metadata publishes for that array axis.
+
+Both read every rounding step (int, floor, round, `//`, floor_divide, divmod()[0]) as transparent (`_IndexNorm`): at
+limits on bin edges the real quotient is an integer.  What the spelling of the rounding does in floating point is a
+separate, structural rule:
+
+R-FLOATFLOOR  no slice bound is formed by a float floor-type division (`//`, floor_divide, divmod, `%`) of exactly
+              that quotient: Python/numpy compute those from the exact remainder of the stored operands, so a limit
+              k*s with a non-representable bin width s yields k-1 (1.0 // 0.1 == 9.0) where true division gives k.
 """
 from __future__ import annotations
 
 import ast
 import copy
 import re
+from fractions import Fraction
 
 from ..cfg import DataFlow
 from ..model import AnalysisError, call_name, dotted, kw, norm_text, walk_no_nested
@@ -38,6 +47,12 @@ def _rename(p: Poly) -> Poly:
             t = t * Poly.atom(_swap_family(a)).power(e)
         out = out + t
     return out
+
+
+def _strip_guard(p: Poly) -> Poly:
+    """The term without its constant part when that is a rounding guard 0 <= c < 1."""
+    c = p.terms.get((), Fraction(0))
+    return p - Poly.const(c) if 0 <= c < 1 else p
 
 
 def _limit_atom(param: str, k: int) -> Poly:
@@ -179,14 +194,67 @@ def _inline_slice_helper(df: DataFlow, at: int, call: ast.Call, helper, f):
     return out
 
 
+_ROUNDERS = {"floor", "trunc", "fix", "rint", "round", "around", "round_"}  # one value -> a neighbouring integer
+_QUOT_CALLS = {"floor_divide"}
+_REM_CALLS = {"mod", "remainder", "fmod"}
+
+
+def _last_name(c: ast.Call) -> str:
+    return (call_name(c) or "").split(".")[-1]
+
+
+class _IndexNorm(FlowNormalizer):
+    """Term of a bin index *in real arithmetic*: every rounding step is transparent.  Besides `int(x)` that is
+    `floor/trunc/rint/round(x)` (one argument) and the floor divisions `a // b`, `floor_divide(a, b)`,
+    `divmod(a, b)[0]`, all read as the quotient a/b.  At limits aligned with bin edges — the inputs the property
+    quantifies over — the real quotient is an integer and every one of these roundings returns it, so the rules that
+    compare index terms (R-AXISMETA, R-AXISFAMILY, R-BOUNDCHECK) do not depend on the spelling of the rounding; what
+    the spellings do to the *floating-point* quotient is the subject of R-FLOATFLOOR."""
+
+    def __init__(self, df, node_idx: int):
+        super().__init__(df, node_idx, identity_calls={"int"})
+
+    def norm(self, n: ast.AST) -> Poly:
+        if isinstance(n, ast.BinOp) and isinstance(n.op, ast.FloorDiv):
+            return self.norm(n.left) * self.norm(n.right).inverse()
+        if isinstance(n, ast.Call) and not n.keywords and not any(isinstance(a, ast.Starred) for a in n.args):
+            short = _last_name(n)
+            if short in _QUOT_CALLS and len(n.args) == 2:
+                return self.norm(n.args[0]) * self.norm(n.args[1]).inverse()
+            if short in _ROUNDERS and len(n.args) == 1:
+                if short not in ("floor", "trunc", "fix"):
+                    self.flags.add("round:nearest")
+                return self.norm(n.args[0])
+        if isinstance(n, ast.Subscript) and isinstance(n.value, ast.Call) and _last_name(n.value) == "divmod" \
+                and len(n.value.args) == 2 and isinstance(n.slice, ast.Constant) and n.slice.value == 0:
+            return self.norm(n.value.args[0]) * self.norm(n.value.args[1]).inverse()
+        return super().norm(n)
+
+
+def _rounded_float_quotient(e: ast.expr) -> bool:
+    """Does the expression round a quotient formed in floating point (int(x / s), x // s, floor_divide, divmod)?"""
+    for c in ast.walk(e):
+        if isinstance(c, ast.Call) and (_last_name(c) == "int" or _last_name(c) in _ROUNDERS) and any(
+                isinstance(b, ast.BinOp) and isinstance(b.op, ast.Div) for b in ast.walk(c)):
+            return True
+        if isinstance(c, ast.BinOp) and isinstance(c.op, ast.FloorDiv) and not (
+                isinstance(c.right, ast.Constant) and isinstance(c.right.value, int)):
+            return True
+        if isinstance(c, ast.Call) and _last_name(c) in (_QUOT_CALLS | {"divmod"}):
+            return True
+    return False
+
+
 def run(ctx) -> None:
     repo = ctx.repo
     ctx.rule("R-AXISFAMILY", "in PolarMeasurements.integrate the index terms of the radial slice and of the "
              "azimuthal slice are identical up to the renaming radial<->azimuthal (the two axes of one linear-axis "
              "family must be indexed by the same formula)")
     ctx.rule("R-AXISMETA", "the index of limit k on array axis j is (limit[k] - offset_j)/sampling_j with offset_j "
-             "and sampling_j the expressions base_axes_metadata publishes for that axis; lower and upper index use "
-             "the same limits parameter with subscripts 0 and 1; no limits -> the full slice")
+             "and sampling_j the expressions base_axes_metadata publishes for that axis (a constant guard 0 <= c < 1 "
+             "added before a floor/truncation is allowed: it does not change the index of a limit on a bin edge); "
+             "lower and upper index use the same limits parameter with subscripts 0 and 1; no limits -> the full "
+             "slice.  The rounding step (int, floor, //, round) is transparent here, see R-FLOATFLOOR")
     ctx.undecided("int() truncation of the float ratio at limits aligned with bin edges (floating-point off-by-one)")
     ctx.undecided("numerical equality of the integrated sums; the detector_regions arm")
 
@@ -234,14 +302,12 @@ def run(ctx) -> None:
         for lo_, hi_, node_ in full:
             whole = lo_ is None
             if not whole:
-                nzf = FlowNormalizer(df, node_, identity_calls={"int"})
+                nzf = _IndexNorm(df, node_)
                 whole = nzf.norm(lo_).is_zero() and nzf.norm(hi_) == nzf.norm(
                     ast.parse(f"self.shape[{j - 2}]", mode="eval").body)
-                # ... and exactly so: an upper index obtained by truncating a float quotient, int(x / s), can come
-                # out one short of the number of bins
-                inexact = [c for e_ in (lo_, hi_) for c in ast.walk(e_) if isinstance(c, ast.Call)
-                           and call_name(c) == "int" and any(isinstance(b, ast.BinOp) and isinstance(b.op, ast.Div)
-                                                              for b in ast.walk(c))]
+                # ... and exactly so: an upper index obtained by truncating a float quotient, int(x / s) or x // s,
+                # can come out one short of the number of bins
+                inexact = [e_ for e_ in (lo_, hi_) if _rounded_float_quotient(e_)]
                 if whole and inexact and not nzf.norm(hi_).is_zero():
                     ctx.violation("R-AXISMETA", f"{integ.qualname}:{fam}-axis no-limits", integ.loc(sub),
                                   f"without {fam} limits the upper index is `{norm_text(hi_)[:80]}`: algebraically the "
@@ -257,9 +323,11 @@ def run(ctx) -> None:
         ctx.require(len(lim) == 1, f"{integ.qualname}: several limited slices reach base axis {j - 2}")
         lo, hi, node = lim[0]
         terms = {}
+        nearest = {}
         for which, e in (("lower", lo), ("upper", hi)):
-            nz = FlowNormalizer(df, node, identity_calls={"int"})
+            nz = _IndexNorm(df, node)
             terms[which] = nz.norm(e)
+            nearest[which] = "round:nearest" in nz.flags
         index_terms[fam] = terms
         # which parameter carries the limits: atoms of the form <param>[k]
         used = {}
@@ -283,7 +351,10 @@ def run(ctx) -> None:
             why.append(f"lower/upper index read {plo}[{klo}] and {phi}[{khi}] instead of one limits pair [0],[1]")
         for which, k in (("lower", 0), ("upper", 1)):
             expected = (_limit_atom(plo, k) - offp) * sampp.inverse()
-            if terms[which] != expected:
+            # a constant guard 0 <= c < 1 under a floor/truncation (int(x / s + 0.5), (x + s/2) // s) leaves the index of
+            # every limit on a bin edge unchanged: floor(k + c) = k.  Under round-to-nearest it does not.
+            guard = (terms[which] - expected).const_value()
+            if not (guard is not None and 0 <= guard < 1 and (guard == 0 or not nearest[which])):
                 good = False
                 why.append(f"{which} index is {terms[which].key()} but axis {j - 2} is published with "
                            f"offset={norm_text(off)}, sampling={norm_text(samp)}, i.e. index {expected.key()}")
@@ -299,7 +370,8 @@ def run(ctx) -> None:
     bad = []
     differing: set[str] = set()
     for which in ("lower", "upper"):
-        r, a = index_terms["radial"][which], index_terms["azimuthal"][which]
+        # a constant guard 0 <= c < 1 under the truncation is not part of the formula (see R-AXISMETA)
+        r, a = (_strip_guard(index_terms[fam][which]) for fam in FAMILIES)
         if _rename(r) != a:
             bad.append(f"{which}: radial {r.key()}  vs azimuthal {a.key()}")
             differing |= {x for x in (_rename(r) - a).atoms() if not re.search(r"\[\d+\]$", x)}
@@ -425,7 +497,7 @@ def run(ctx) -> None:  # noqa: F811
         t = st.test
         if not (isinstance(t, _ast.Compare) and len(t.ops) == 1 and type(t.ops[0]) in flip):
             continue
-        nz = _FN(df, df.cfg.node_of(st).idx, identity_calls={"int"})
+        nz = _IndexNorm(df, df.cfg.node_of(st).idx)
         sides = [nz.norm(t.left), nz.norm(t.comparators[0])]
         shapes = {k: nz.norm(_ast.parse(f"self.shape[{k}]", mode="eval").body) for k in (-2, -1)}
         for i in (0, 1):
@@ -455,3 +527,319 @@ def run(ctx) -> None:  # noqa: F811
         ctx.ok("R-BOUNDCHECK", f"{f.qualname}:no-range-check", f.where, "no index/length range check in integrate",
                nontrivial=False)
     _inner_run_c13c(ctx)
+
+
+# ---- added after the seeded change C13-r4seed3: floor division of the float quotient limit / bin width
+_inner_run_c13d = run
+
+FLOATFLOOR_TEXT = (
+    "in PolarMeasurements.integrate no slice bound is obtained by a floor-type division (`a // b`, floor_divide, "
+    "divmod, `a % b`, mod/remainder/fmod) whose divisor is a float and whose real quotient a/b is the index quotient "
+    "(limit[k] - offset_j)/sampling_j of R-AXISMETA (up to an integer constant).  This clause is about Python/numpy "
+    "float semantics, not about real arithmetic: float floor division and modulus are computed from the exact "
+    "remainder of the two *stored* operands (fmod), so for a limit on a bin edge k*s with a bin width s that is not "
+    "exactly representable they see a quotient a hair below k and return k-1 (1.0 // 0.1 == 9.0, 1.0 % 0.1 == "
+    "0.0999...), whereas true division rounds the quotient to the nearest float, k (1.0 / 0.1 == 10.0).  The property "
+    "quantifies exactly over limits on bin edges, where the real quotient is an integer and the floor is discontinuous; "
+    "with `//` the upper/right limit loses the last bin inside the limits and the lower/left limit gains one bin "
+    "below, and the pieces of a partition no longer add up.  Decided structurally only: which operator forms and "
+    "rounds the quotient.  Silent: floor divisions with a provably integer divisor (n // 2, len, shape elements, "
+    "int(...)/round(...) results), and a quotient moved off the integers by a fractional constant ((x + s/2) // s).  "
+    "A divisor whose type cannot be established, or a float floor division of some other quotient, is an analysis "
+    "error.  NOT decided: whether int(x / s) itself truncates a correctly rounded quotient below k (0.3 / 0.1)")
+
+
+def _annotation_kind(ann, element: bool = False):
+    """'int' / 'float' from an annotation (of the value, or of the elements of a tuple/sequence annotation)."""
+    if ann is None:
+        return None
+    txt = ast.unparse(ann)
+    words = set(re.findall(r"[A-Za-z_][\w.]*", txt))
+    containers = {"tuple", "Tuple", "list", "List", "Sequence", "typing.Sequence"}
+    if bool(words & containers) != element:
+        return None
+    words -= containers | {"Optional", "Union", "None", "typing.Optional", "typing.Union"}
+    if words and words <= {"float", "int"}:
+        return "float" if "float" in words else "int"
+    return None
+
+
+def _param_annotation(f, name: str):
+    a = f.node.args
+    for x in a.posonlyargs + a.args + a.kwonlyargs:
+        if x.arg == name:
+            return x.annotation
+    return None
+
+
+_INT_CALLS = {"int", "len", "round"}  # round with ONE argument
+_FLOAT_CALLS = {"float", "float32", "float64", "floor", "ceil", "trunc", "rint", "sqrt", "hypot", "radians", "degrees",
+                "arctan2", "deg2rad", "rad2deg"}
+
+
+def _numkind(e: ast.expr, df: DataFlow, node: int, f, depth: int = 0):
+    """'int' if the value is provably a Python/numpy integer, 'float' if it is (or can be) a float, None if unknown."""
+    if depth > 12:
+        return None
+    if isinstance(e, ast.Constant):
+        if isinstance(e.value, (bool, int)):
+            return "int"
+        return "float" if isinstance(e.value, float) else None
+    if isinstance(e, ast.UnaryOp) and isinstance(e.op, (ast.USub, ast.UAdd)):
+        return _numkind(e.operand, df, node, f, depth + 1)
+    if isinstance(e, ast.BinOp):
+        if isinstance(e.op, ast.Div):
+            return "float"
+        if isinstance(e.op, (ast.Add, ast.Sub, ast.Mult, ast.FloorDiv, ast.Mod, ast.Pow)):
+            a, b = _numkind(e.left, df, node, f, depth + 1), _numkind(e.right, df, node, f, depth + 1)
+            if "float" in (a, b):
+                return "float"
+            if a == b == "int":
+                if isinstance(e.op, ast.Pow) and not (isinstance(e.right, ast.Constant) and isinstance(e.right.value, int)
+                                                      and e.right.value >= 0):
+                    return None
+                return "int"
+        return None
+    if isinstance(e, ast.Call):
+        short = _last_name(e)
+        mod = dotted(e.func.value) if isinstance(e.func, ast.Attribute) else None
+        if mod is None and short in _INT_CALLS and len(e.args) == 1 and not e.keywords:
+            return "int"
+        if mod == "math" and short in ("floor", "ceil", "trunc"):
+            return "int"
+        if (mod is None and short == "float") or (mod is not None and short in _FLOAT_CALLS):
+            return "float"
+        if short in ("abs", "absolute") and len(e.args) == 1:
+            return _numkind(e.args[0], df, node, f, depth + 1)
+        if isinstance(e.func, ast.Attribute) and short == "astype" and len(e.args) == 1:
+            t = norm_text(e.args[0])
+            return "int" if t in ("int", "np.int32", "np.int64") else ("float" if "float" in t else None)
+        return None
+    if isinstance(e, ast.Attribute):
+        if e.attr in ("size", "ndim"):
+            return "int"
+        if e.attr == "pi":
+            return "float"
+        d = dotted(e)
+        if d is not None and d.startswith("self.") and d.count(".") == 1 and f.cls is not None:
+            if df.reaching(node, d):
+                return None
+            g = f.cls.find_method(e.attr, "getter")
+            if g is not None and g.is_property:
+                return _annotation_kind(g.node.returns)
+        return None
+    if isinstance(e, ast.Subscript):
+        idx_const = isinstance(e.slice, ast.Constant) and isinstance(e.slice.value, int)
+        if isinstance(e.value, ast.Attribute) and e.value.attr == "shape" and idx_const:
+            return "int"
+        if isinstance(e.value, (ast.Tuple, ast.List)) and idx_const and -len(e.value.elts) <= e.slice.value < len(e.value.elts):
+            return _numkind(e.value.elts[e.slice.value], df, node, f, depth + 1)
+        if isinstance(e.value, ast.Name) and idx_const:
+            defs = df.reaching(node, e.value.id)
+            kinds = set()
+            for d in defs:
+                if d.kind == "param":
+                    kinds.add(_annotation_kind(_param_annotation(f, e.value.id), element=True))
+                elif d.kind == "assign" and isinstance(d.value, (ast.Tuple, ast.List)) and \
+                        -len(d.value.elts) <= e.slice.value < len(d.value.elts):
+                    kinds.add(_numkind(d.value.elts[e.slice.value], df, d.node, f, depth + 1))
+                else:
+                    kinds.add(None)
+            return _join(kinds)
+        return None
+    if isinstance(e, ast.Name):
+        defs = df.reaching(node, e.id)
+        kinds = set()
+        for d in defs:
+            if d.kind == "param":
+                kinds.add(_annotation_kind(_param_annotation(f, e.id)))
+            elif d.kind in ("assign", "walrus") and d.value is not None:
+                st = df.cfg.nodes[d.node].ast
+                tgt = st.targets[0] if isinstance(st, ast.Assign) else None
+                if isinstance(tgt, (ast.Tuple, ast.List)):
+                    v = d.value
+                    if isinstance(v, (ast.Tuple, ast.List)) and len(v.elts) == len(tgt.elts):
+                        pos = [i for i, t in enumerate(tgt.elts) if isinstance(t, ast.Name) and t.id == e.id]
+                        kinds.add(_numkind(v.elts[pos[0]], df, d.node, f, depth + 1) if pos else None)
+                    elif isinstance(v, ast.Attribute) and v.attr == "shape" or (
+                            isinstance(v, ast.Subscript) and isinstance(v.value, ast.Attribute) and v.value.attr == "shape"):
+                        kinds.add("int")
+                    else:
+                        kinds.add(None)
+                else:
+                    kinds.add(_numkind(d.value, df, d.node, f, depth + 1))
+            else:
+                kinds.add(None)
+        return _join(kinds)
+    return None
+
+
+def _join(kinds: set):
+    if not kinds or None in kinds:
+        return None
+    return "float" if "float" in kinds else "int"
+
+
+def _floor_ops(df: DataFlow, at: int, expr: ast.expr, seen: set, pos=None):
+    """Floor-type divisions in `expr` (evaluated at CFG node `at`) and in every definition its value depends on:
+    tuples (kind 'quot'|'rem'|'both', dividend, divisor, node where the operands are evaluated, ast node)."""
+    parent = {}
+    for p in ast.walk(expr):
+        for c in ast.iter_child_nodes(p):
+            parent[id(c)] = p
+    for n in ast.walk(expr):
+        if isinstance(n, ast.BinOp) and isinstance(n.op, (ast.FloorDiv, ast.Mod)):
+            if isinstance(n.op, ast.Mod) and (isinstance(n.left, ast.JoinedStr) or (
+                    isinstance(n.left, ast.Constant) and isinstance(n.left.value, str))):
+                continue  # string formatting
+            yield ("quot" if isinstance(n.op, ast.FloorDiv) else "rem", n.left, n.right, at, n)
+        elif isinstance(n, ast.Call) and len(n.args) == 2 and _last_name(n) in (_QUOT_CALLS | _REM_CALLS | {"divmod"}):
+            short = _last_name(n)
+            kind = "quot" if short in _QUOT_CALLS else "rem" if short in _REM_CALLS else "both"
+            if short == "divmod":
+                par = parent.get(id(n))
+                if isinstance(par, ast.Subscript) and par.value is n and isinstance(par.slice, ast.Constant) \
+                        and par.slice.value in (0, 1):
+                    kind = ("quot", "rem")[par.slice.value]
+                elif n is expr and pos in (0, 1):
+                    kind = ("quot", "rem")[pos]
+            yield (kind, n.args[0], n.args[1], at, n)
+    names = set()
+    for n in ast.walk(expr):
+        if isinstance(n, ast.Name) and isinstance(n.ctx, ast.Load):
+            names.add(n.id)
+        elif isinstance(n, ast.Attribute) and isinstance(n.ctx, ast.Load):
+            d = dotted(n)
+            if d is not None and d.startswith("self."):
+                names.add(d)
+    for name in sorted(names):
+        for d in df.reaching(at, name):
+            if (d.node, name) in seen or d.value is None or d.kind not in ("assign", "walrus", "aug"):
+                continue
+            seen.add((d.node, name))
+            st = df.cfg.nodes[d.node].ast
+            if isinstance(st, ast.AugAssign):
+                if isinstance(st.op, (ast.FloorDiv, ast.Mod)):
+                    yield ("quot" if isinstance(st.op, ast.FloorDiv) else "rem", st.target, st.value, d.node, st)
+                load = copy.deepcopy(st.target)
+                for x in ast.walk(load):
+                    if hasattr(x, "ctx"):
+                        x.ctx = ast.Load()
+                yield from _floor_ops(df, d.node, load, seen)
+                yield from _floor_ops(df, d.node, st.value, seen)
+                continue
+            p = None
+            tgt = st.targets[0] if isinstance(st, ast.Assign) else None
+            if isinstance(tgt, (ast.Tuple, ast.List)):
+                hit = [i for i, t in enumerate(tgt.elts) if (isinstance(t, ast.Name) and t.id == name) or dotted(t) == name]
+                p = hit[0] if hit else None
+                if isinstance(d.value, (ast.Tuple, ast.List)) and p is not None and len(d.value.elts) == len(tgt.elts):
+                    yield from _floor_ops(df, d.node, d.value.elts[p], seen)
+                    continue
+            yield from _floor_ops(df, d.node, d.value, seen, pos=p)
+
+
+def _selection(integ, df: DataFlow):
+    """(subscript `self.array[..., r, a]`, CFG node of its statement), as the base rule locates it."""
+    subs = [n for n in walk_no_nested(integ.node)
+            if isinstance(n, ast.Subscript) and dotted(n.value) == "self.array" and isinstance(n.slice, ast.Tuple)
+            and len(n.slice.elts) == 3 and isinstance(n.slice.elts[0], ast.Constant) and n.slice.elts[0].value is Ellipsis]
+    if len(subs) != 1:
+        raise AnalysisError(f"{integ.qualname}: expected exactly one `self.array[..., r, a]` selection, found {len(subs)}")
+    stmt = None
+    for st in walk_no_nested(integ.node):
+        if isinstance(st, ast.stmt) and not isinstance(st, (ast.If, ast.For, ast.While, ast.With, ast.Try, ast.FunctionDef)) \
+                and any(x is subs[0] for x in ast.walk(st)):
+            stmt = st
+    if stmt is None:
+        raise AnalysisError(f"{integ.qualname}: selection statement not found")
+    return subs[0], df.cfg.node_of(stmt).idx
+
+
+def floatfloor(ctx, rule: str = "R-FLOATFLOOR") -> int:
+    """R-FLOATFLOOR on the slice bounds of PolarMeasurements.integrate (also run by C12); returns the number of bound
+    expressions examined."""
+    repo = ctx.repo
+    integ = repo.method(MOD, CLS, "integrate")
+    axes = _axis_exprs(repo.method(MOD, CLS, "base_axes_metadata"))
+    nz_meta = FlowNormalizer(DataFlow(repo.method(MOD, CLS, "base_axes_metadata").node), 0)
+    df = DataFlow(integ.node)
+    sub, at = _selection(integ, df)
+    limit_params = [p for p in integ.params if p != "self"]
+    pending = None
+    examined = 0
+    for j, fam in enumerate(FAMILIES):
+        offp, sampp = nz_meta.norm(axes[j][0]), nz_meta.norm(axes[j][1])
+        expected = [(_limit_atom(p, k) - offp) * sampp.inverse() for p in limit_params for k in (0, 1)]
+        n_arm = 0
+        for lo, hi, node in _slice_bounds(df, at, sub.slice.elts[1 + j], integ):
+            if lo is None:
+                continue
+            n_arm += 1
+            for which, e in (("lower", lo), ("upper", hi)):
+                examined += 1
+                construct = f"{integ.qualname}:{fam}-axis {which} index"
+                ops = list(_floor_ops(df, node, e, set()))
+                kinds_float = set()
+                verdicts = []
+                for kind, a, b, nd, opnode in ops:
+                    what = norm_text(opnode)[:70]
+                    bk = _numkind(b, df, nd, integ)
+                    if bk == "int":
+                        verdicts.append(("ok", kind, f"`{what}`: integer divisor"))
+                        continue
+                    if bk is None:
+                        pending = pending or AnalysisError(
+                            f"{integ.qualname}: {rule}: cannot establish whether the divisor `{norm_text(b)[:40]}` of the "
+                            f"floor division `{what}` in the {fam} {which} index is an integer")
+                        continue
+                    kinds_float.add(kind)
+                    nz = _IndexNorm(df, nd)
+                    q = nz.norm(a) * nz.norm(b).inverse()
+                    consts = [c for c in ((q - x).const_value() for x in expected) if c is not None]
+                    if not consts:
+                        pending = pending or AnalysisError(
+                            f"{integ.qualname}: {rule}: float floor division `{what}` in the {fam} {which} index: its "
+                            f"quotient {q.key()[:70]} is not the index quotient (limit - offset)/sampling; whether it "
+                            "meets an integer at bin-edge limits is not decided")
+                        continue
+                    c = consts[0]
+                    if c.denominator != 1:
+                        verdicts.append(("ok", kind, f"`{what}`: the quotient is (limit - offset)/sampling + {c}, kept "
+                                                     "off the integers at bin-edge limits"))
+                    else:
+                        verdicts.append(("bad", kind, what))
+                if {"quot", "rem"} <= kinds_float or "both" in kinds_float:
+                    pending = pending or AnalysisError(
+                        f"{integ.qualname}: {rule}: the {fam} {which} index combines a float floor quotient with the "
+                        "remainder of the same kind of division (a rounding correction?) — not interpreted")
+                    continue
+                bad = [v for v in verdicts if v[0] == "bad"]
+                for _, kind, what in bad[:1]:
+                    ctx.violation(
+                        rule, construct, integ.loc(e),
+                        f"the {fam} {which} bin index is obtained with the float floor-type division `{what}`: its real "
+                        "quotient is (limit - offset)/sampling, an integer k for every limit on a bin edge, but float "
+                        "`//`/`%` work on the exact remainder of the stored operands and yield k-1 (resp. a remainder "
+                        "just below the bin width) whenever the bin width is not exactly representable (1.0 // 0.1 == "
+                        "9.0): " + ("the last bin inside the limits is dropped" if which == "upper" else
+                                    "one bin below the limit is included")
+                        + "; form the quotient with true division and round/truncate it",
+                        key_detail="floatfloor-" + ("quotient" if kind in ("quot", "both") else "remainder"))
+                if not bad:
+                    oks = [t for v, _, t in verdicts if v == "ok"]
+                    ctx.ok(rule, construct, integ.loc(e),
+                           "; ".join(oks) if oks else "no floor-type division enters this bound (the quotient is formed "
+                                                      "with true division)")
+        if n_arm == 0:
+            raise AnalysisError(f"{integ.qualname}: {rule}: no computed slice bounds for base axis {j - 2}")
+    if pending is not None:
+        raise pending
+    return examined
+
+
+def run(ctx) -> None:  # noqa: F811
+    from ..rules import deferred
+
+    ctx.rule("R-FLOATFLOOR", FLOATFLOOR_TEXT)
+    deferred.run(ctx, lambda: floatfloor(ctx), _inner_run_c13d)
